@@ -672,10 +672,10 @@ Proof.
                then match id_value new_id with Some v => m_set tbl uni_lower n_record_id v hs | None => hs end else hs in
     let hs2 := if o_add_cl oo && negb (m_has tbl uni_lower n_content_length hs1)
                then m_set tbl uni_lower n_content_length (itoa (Z.of_nat (length content))) hs1 else hs1 in
-    rbind (validate_header (o_spec oo) (o_unknown oo) vid hs2 []) (fun x fnd => let '(_, hs3) := x in
-      rbind (parse_block oo rt0 hs3 content fnd) (fun y fnd1 => let '(hs4, blk, bd, pd) := y in
-        rbind (validate_digest oo rt0 hs4 blk bd pd true fnd1) (fun hs5 fnd2 =>
-          Ok (mkrec (if vid =? 1 then [49;46;48] else [49;46;49]) vid rt0 hs5 blk) fnd2)))).
+    rbind (validate_header (o_spec oo) (o_unknown oo) vid hs2 []) (fun x fnd => let '(rt, hs3) := x in
+      rbind (parse_block oo (if rt0 =? 0 then rt else rt0) hs3 content fnd) (fun y fnd1 => let '(hs4, blk, bd, pd) := y in
+        rbind (validate_digest oo (if rt0 =? 0 then rt else rt0) hs4 blk bd pd true fnd1) (fun hs5 fnd2 =>
+          Ok (mkrec (if vid =? 1 then [49;46;48] else [49;46;49]) vid (if rt0 =? 0 then rt else rt0) hs5 blk) fnd2)))).
   { intros oo. unfold Record.build, rbind. cbv zeta.
     destruct (Validate.validate_header _ _ _ _ _ _ _ _ _ _ _ _) as [[rt hs3] fnd|e fnd]; [|reflexivity].
     destruct (Record.parse_block _ _ _ _ _ _ _ _ _ _ _) as [[[[hs4 blk] bd] pd] fnd1|e fnd1]; [|reflexivity].
@@ -689,14 +689,14 @@ Proof.
   { unfold hs2, hs1. destruct (o_add_cl o && _); [apply canonical_set_gen|];
       (destruct (o_add_id o && _); [destruct (id_value new_id); [apply canonical_set_gen|]|]; exact HC). }
   assert (Hs : insync
-    (rbind (validate_header Warn Warn vid hs2 []) (fun x fnd => let '(_, hs3) := x in
-      rbind (parse_block (uni o Warn) rt0 hs3 content fnd) (fun y fnd1 => let '(hs4, blk, bd, pd) := y in
-        rbind (validate_digest (uni o Warn) rt0 hs4 blk bd pd true fnd1) (fun hs5 fnd2 =>
-          Ok (mkrec (if vid =? 1 then [49;46;48] else [49;46;49]) vid rt0 hs5 blk) fnd2))))
-    (rbind (validate_header Fail Fail vid hs2 []) (fun x fnd => let '(_, hs3) := x in
-      rbind (parse_block (uni o Fail) rt0 hs3 content fnd) (fun y fnd1 => let '(hs4, blk, bd, pd) := y in
-        rbind (validate_digest (uni o Fail) rt0 hs4 blk bd pd true fnd1) (fun hs5 fnd2 =>
-          Ok (mkrec (if vid =? 1 then [49;46;48] else [49;46;49]) vid rt0 hs5 blk) fnd2)))) []).
+    (rbind (validate_header Warn Warn vid hs2 []) (fun x fnd => let '(rt, hs3) := x in
+      rbind (parse_block (uni o Warn) (if rt0 =? 0 then rt else rt0) hs3 content fnd) (fun y fnd1 => let '(hs4, blk, bd, pd) := y in
+        rbind (validate_digest (uni o Warn) (if rt0 =? 0 then rt else rt0) hs4 blk bd pd true fnd1) (fun hs5 fnd2 =>
+          Ok (mkrec (if vid =? 1 then [49;46;48] else [49;46;49]) vid (if rt0 =? 0 then rt else rt0) hs5 blk) fnd2))))
+    (rbind (validate_header Fail Fail vid hs2 []) (fun x fnd => let '(rt, hs3) := x in
+      rbind (parse_block (uni o Fail) (if rt0 =? 0 then rt else rt0) hs3 content fnd) (fun y fnd1 => let '(hs4, blk, bd, pd) := y in
+        rbind (validate_digest (uni o Fail) (if rt0 =? 0 then rt else rt0) hs4 blk bd pd true fnd1) (fun hs5 fnd2 =>
+          Ok (mkrec (if vid =? 1 then [49;46;48] else [49;46;49]) vid (if rt0 =? 0 then rt else rt0) hs5 blk) fnd2)))) []).
   { apply rbind_sync; [apply validate_header_sync; exact HC2|apply validate_header_le; exact HC2| |].
     - intros [rt hs3] f. apply rbind_le; [apply parse_block_le|]. intros [[[hs4 blk] bd] pd] f1.
       apply rbind_le; [apply validate_digest_le|intros ? ?; apply le_refl].
